@@ -202,6 +202,27 @@ def cases(tier, rng):
                                (30000, 40, [1000]), (30000, 40, [10000, 20000]), (56000, 40, [28000])):
         yield {"op": "count_kmers_big", "nreads": nreads, "rlen": rlen, "k": 5, "cuts": cuts, "seed": 7 + nreads % 5,
                "chunks": [[0]] * (len(cuts) + 1)}
+    # 0c. empty chunks (an empty table in the stream: a filtered-out chunk, an empty file part) at every position of
+    #     every chunking of n <= 4 entries (groupby returns no groups for an empty table since 5241510)
+    for n in range(1, 5):
+        for mask in range(2 ** (n - 1)):
+            for pos in range(0, n + 1):
+                def ins(ch):
+                    ch = list(ch)
+                    k = min(pos, len(ch))
+                    return ch[:k] + [[]] + ch[k:] + ([[]] if pos == n else [])
+                vals = VALS[:n]
+                yield {"op": "mean", "chunks": ins(_cut(vals, mask)), "scale": 1}
+                yield {"op": "bincount", "chunks": ins(_cut(vals, mask)), "minlength": 0}
+                yield {"op": "histogram", "chunks": ins(_cut(vals, mask)), "edges": [0, 2, 4, 6, 8], "how": "edges"}
+                yield {"op": "chunk_entries", "chunks": ins(_cut(list(range(n)), mask)), "n": 2}
+                yield {"op": "chunk_lines", "chunks": ins(_cut(list(range(n)), mask)), "n": 2}
+                seqs = [[("ACGT".index(ch_)) for ch_ in s_] for s_ in SEQS[:n]]
+                yield {"op": "count_kmers", "chunks": ins(_cut(seqs, mask)), "k": 2}
+                for kt in ("ragged", "str", "int"):
+                    ks = _keys_from_pattern(n, (mask * 5 + pos) % (2 ** (n - 1)) if n > 1 else 0)
+                    yield {"op": "groupby", "kt": kt, "fast": kt == "ragged",
+                           "chunks": ins(_cut([[k, i] for i, k in enumerate(ks)], mask))}
     # 1. exhaustive chunkings
     for n in range(1, N + 1):
         for mask in range(2 ** (n - 1)):
